@@ -376,7 +376,7 @@ pub fn policy_sets(tier: Tier, schema: &cedar_policy::Schema) -> Vec<(Vec<Pol>, 
                 k += 1;
                 let known_t = if k % 2 == 0 { E::Bool(true) } else { E::Is(b(pr.clone()), "User".into()) };
                 let known_f = if k % 2 == 0 { E::Bool(false) } else { E::not(E::Is(b(pr.clone()), "User".into())) };
-                if tier == Tier::Quick && (k % 3 != 0) {
+                if tier == Tier::Quick && o >= 2 && (k % 3 != 0) {
                     continue;
                 }
                 let e = match o {
